@@ -54,6 +54,9 @@ fn main() {
     if std::env::var("VERIF_DEBUG").is_err() {
         std::panic::set_hook(Box::new(|_| {}));
     }
+    // the embedding process has a `tracing` subscriber that enables every level and formats every field (as applications
+    // that log at DEBUG do): what the library computes for its log lines is part of what runs on untrusted input
+    let _ = tracing::subscriber::set_global_default(EveryLevel);
     let start = std::time::Instant::now();
     let mut ctx = Ctx::new(&runner, seed, tier == "thorough", search, only_case);
     match property.as_str() {
@@ -82,4 +85,24 @@ fn main() {
     let rep = ctx.report(&property, start.elapsed().as_secs_f64());
     let s = serde_json::to_string_pretty(&rep).unwrap();
     if out.is_empty() { println!("{s}"); } else { std::fs::write(&out, s).expect("write report"); }
+}
+
+/// a subscriber that enables everything, formats every field of every event and throws the text away
+struct EveryLevel;
+struct Sink(String);
+impl tracing::field::Visit for Sink {
+    fn record_debug(&mut self, field: &tracing::field::Field, value: &dyn std::fmt::Debug) {
+        use std::fmt::Write;
+        self.0.clear();
+        let _ = write!(self.0, "{}={:?}", field.name(), value);
+    }
+}
+impl tracing::Subscriber for EveryLevel {
+    fn enabled(&self, _: &tracing::Metadata<'_>) -> bool { true }
+    fn new_span(&self, _: &tracing::span::Attributes<'_>) -> tracing::span::Id { tracing::span::Id::from_u64(1) }
+    fn record(&self, _: &tracing::span::Id, _: &tracing::span::Record<'_>) {}
+    fn record_follows_from(&self, _: &tracing::span::Id, _: &tracing::span::Id) {}
+    fn event(&self, e: &tracing::Event<'_>) { let mut s = Sink(String::new()); e.record(&mut s); }
+    fn enter(&self, _: &tracing::span::Id) {}
+    fn exit(&self, _: &tracing::span::Id) {}
 }
